@@ -97,6 +97,20 @@ def takeLists : Nat → List String → Option (List (List Int) × List String)
 def showSegX (s : Seg) : String :=
   s!"{if s.frames.isEmpty then 0 else s.first} | {showList toString s.frames} | {match s.maxlen with | some m => toString m | none => "-"} | {showB s.copied}"
 
+def showOptW (w : Option (List Nat)) : String :=
+  match w with
+  | some ws => "[" ++ showList toString ws ++ "]"
+  | none => "-"
+
+/-- `m` pairs `ens lm1` -/
+def takeKeys : Nat → List String → Option (List (Int × Option Int) × List String)
+  | 0, rest => some ([], rest)
+  | m + 1, e :: l :: rest =>
+    match parseInt? e, optInt? l, takeKeys m rest with
+    | some e, some l, some (ks, rest) => some ((e, l) :: ks, rest)
+    | _, _, _ => none
+  | _ + 1, _ => none
+
 def handleExt (toks : List String) : Option String :=
   match toks with
   | "trace" :: l :: r :: rest =>
@@ -196,6 +210,50 @@ def handleExt (toks : List String) : Option String :=
     match parseInt? l, parseInt? m, parseInt? r, optInt? cap, parseMove? mv, takeList parseInt? rest with
     | some l, some m, some r, some cap, some mv, some (ops, []) => some (showExceptNat (subtWeight l m r cap mv ops))
     | _, _, _, _, _, _ => some "bad-op"
+  | "specsegs" :: l :: r :: rest =>
+    match parseInt? l, parseInt? r, takeList parseInt? rest with
+    | some l, some r, some (ops, []) => some (showList showSeg (specSegs l r ops))
+    | _, _, _ => some "bad-op"
+  | "loadwn" :: size :: lm1 :: cap :: rest =>
+    -- load_paths with the state's own size (audit): `-` = a path that was never looked at
+    match parseNat? size, optInt? lm1, optInt? cap, takeList parseInt? rest with
+    | some size, some lm1, some cap, some (intfs, rest) =>
+      match takeList parseMove? rest with
+      | some (mv, k :: rest) =>
+        match parseNat? k with
+        | some k =>
+          match takeLists k rest with
+          | some (paths, []) =>
+            match loadPathsWeightsN size intfs mv lm1 cap paths with
+            | .ok wss => some (showList showOptW wss)
+            | .error e => some (showErr e)
+          | _ => some "bad-op"
+        | none => some "bad-op"
+      | _ => some "bad-op"
+    | _, _, _, _ => some "bad-op"
+  | "mdall" :: acc :: cap :: rest =>
+    -- run_md over all its trials: k trials (length-prefixed lists), then m keys `ens lm1`
+    match optInt? cap, takeList parseInt? rest with
+    | some cap, some (intfs, rest) =>
+      match takeList parseMove? rest with
+      | some (mv, k :: rest) =>
+        match parseNat? k with
+        | some k =>
+          match takeLists k rest with
+          | some (trials, m :: rest) =>
+            match parseNat? m with
+            | some m =>
+              match takeKeys m rest with
+              | some (keys, []) =>
+                match runMdAll intfs mv cap (acc = "1") trials keys with
+                | .ok wss => some (showList showOptW wss)
+                | .error e => some (showErr e)
+              | _ => some "bad-op"
+            | none => some "bad-op"
+          | _ => some "bad-op"
+        | none => some "bad-op"
+      | _ => some "bad-op"
+    | _, _ => some "bad-op"
   | _ => none
 
 def handleAll (toks : List String) : String :=
